@@ -55,6 +55,35 @@ Theorem C18_port_only_key_refuted :
 Proof. exact port_only_key_refuted. Qed.
 Print Assumptions C18_port_only_key_refuted.
 
+(* Histories: listeners opened and closed while fabio runs (tcp-dynamic: proxy.CloseProxy).  For
+   EVERY history of starts and CloseProxy calls (before or during Shutdown) the duration of
+   Shutdown is bounded by the wait, and with pairwise distinct start addresses no started
+   listener accepts after Shutdown began (closed earlier, or closed first by Shutdown). *)
+Theorem C18_history_bounded : forall kf wait h,
+  dle (history_ret (run_history grpc_prog kf wait h)) (Fin wait).
+Proof. exact history_bounded. Qed.
+Print Assumptions C18_history_bounded.
+
+Theorem C18_history_no_accept : forall wait h f t,
+  NoDup (history_addrs h) ->
+  In f (run_history grpc_prog key_configured wait h) -> sfate_accepts f t = false.
+Proof. exact history_no_accept. Qed.
+Print Assumptions C18_history_no_accept.
+
+Theorem C18_history_without_close : forall wait started,
+  NoDup (map fst started) ->
+  run_history grpc_prog key_configured wait (map (fun p => HStart (fst p) (snd p)) started)
+  = map (fun p => SReached (run_server grpc_prog wait (snd p))) started.
+Proof. exact history_without_close. Qed.
+Print Assumptions C18_history_without_close.
+
+Theorem C18_lock_held_during_close_refuted :
+  exists delay wait s, 0 < delay /\
+    lock_held_accepts delay (run_server grpc_prog wait s) 0 = true /\
+    ~ dle (lock_held_ret delay (run_server grpc_prog wait s)) (Fin wait).
+Proof. exact lock_held_during_close_refuted. Qed.
+Print Assumptions C18_lock_held_during_close_refuted.
+
 (* 2. Every open item that needs no more than the wait ends by itself ([Done n], not cut) and
       does so before proxy.Shutdown returns (so before main.go lets the process exit). *)
 Theorem C18_inflight_within_wait_complete : forall wait srvs s l n,
